@@ -40,7 +40,27 @@ def units(tier):
         ctx.inputs["end"] = b
         ob = outcome_of(lambda: ip.call_function(func(Q), [a, b], {}, ctx))
         return [Obligation(PROP + "/_canary/never_zero", ctx, z3.Not(ip.equals(ob[1], "0:00:00", ctx)))]
+    def sched(ip, ctx):
+        # the duration a schedule object reports (filled at construction) is that of ITS OWN start and end
+        from pyvc.sym import PySet
+        from .common import cls
+        a = TimeStr("start", ctx)
+        b = TimeStr("end", ctx)
+        ctx.assume(a.valid())
+        ctx.assume(b.valid())
+        ctx.inputs["start"] = a
+        ctx.inputs["end"] = b
+        c = cls("aioswitcher.schedule.parser.SwitcherSchedule")
+        ob = outcome_of(lambda: ip.instantiate(c, ["3", False, PySet(), a, b], {}, ctx))
+        want = ip.call_function(func("spec.duration_spec"), [a, b], {}, ctx)
+        obs = [Obligation(f"{PROP}/SwitcherSchedule/constructs", ctx, ob[0] == "ret")]
+        if ob[0] == "ret":
+            obs.append(Obligation(f"{PROP}/SwitcherSchedule/duration_is_of_its_own_times", ctx, ip.equals(ob[1].attrs.get("duration"), want, ctx)))
+            obs.append(Obligation(f"{PROP}/SwitcherSchedule/construction_assigns_nothing_else", ctx,
+                                  not ctx.ghost.heap_writes and not ctx.ghost.module_writes))
+        return obs
     return {"calc_duration": Unit("calc_duration", PROP, fn, functions=[Q], witness=wit),
+            "schedule_duration": Unit("schedule_duration", PROP, sched, functions=["aioswitcher.schedule.parser.SwitcherSchedule.__post_init__"]),
             "_canary": Unit("_canary", PROP, canary)}
 
 
@@ -52,10 +72,11 @@ def replay_case(o):
 
 
 def search_cases(o, seed):
-    return [{"prop": PROP, "kind": "sweep", "inputs": {"seed": seed, "n": 20000}}]
+    return [{"prop": PROP, "kind": "sweep", "inputs": {"seed": seed, "n": 20000}}, {"prop": PROP, "kind": "schedules", "inputs": {"seed": seed, "n": 2000}}]
 
 
 def native_cases(tier, seed):
     if tier == "thorough":
-        return [{"prop": PROP, "kind": "all_pairs", "inputs": {}}]
-    return [{"prop": PROP, "kind": "sweep", "inputs": {"seed": seed, "n": 5000}}]
+        return [{"prop": PROP, "kind": "all_pairs", "inputs": {}}, {"prop": PROP, "kind": "schedules", "inputs": {"seed": seed, "n": 20000}}]
+    return [{"prop": PROP, "kind": "sweep", "inputs": {"seed": seed, "n": 5000}},
+            {"prop": PROP, "kind": "schedules", "inputs": {"seed": seed, "n": 300}}]
